@@ -1,6 +1,6 @@
 (** C01 -- encode/decode normal form.
-    PARTIAL.  Proved here, for the plain layouts (fields, structs, the three list forms: 47 of the 108
-    message types; not the MSM, SSR code-bias, GLONASS bias, descriptor-string and free-text layouts):
+    PARTIAL.  Proved here, for the plain layouts (fields, structs, the three list forms, descriptor strings:
+    55 of the 108 message types; not the MSM, SSR code-bias, GLONASS bias and free-text layouts):
     a message body obtained by decoding ANY buffer is a fixed point -- the encoder accepts it wherever
     there is room, writes exactly as many bits as were read, leaves every earlier bit alone, and decoding
     what it wrote returns the same value.  Together with C08 (each field: decode then encode gives the
@@ -19,7 +19,7 @@ Open Scope Z_scope.
 Definition plain_messages : list Z := map fst (filter (fun m => plain (snd m)) messages).
 
 (** which message numbers the theorem covers (recomputed from the regenerated table) *)
-Theorem C01_plain_count : length plain_messages = 47%nat /\ In 1001 plain_messages /\ In 1019 plain_messages /\ In 1057 plain_messages.
+Theorem C01_plain_count : length plain_messages = 55%nat /\ In 1001 plain_messages /\ In 1019 plain_messages /\ In 1057 plain_messages /\ In 1033 plain_messages.
 Proof. vm_compute. repeat split; tauto. Qed.
 
 (** decoding depends only on the bits it consumes *)
